@@ -51,9 +51,14 @@ impl SvgOptions {
         }
         let color = color.as_bytes();
         let color = color.chunks_exact(2);
-        let color = color.map(|x| u8::from_str_radix(std::str::from_utf8(x).unwrap(), 16).unwrap());
+        // Anything that is not a pair of hexadecimal digits makes the whole color invalid (ignored by the setters)
+        let color = color.map(|x| {
+            std::str::from_utf8(x)
+                .ok()
+                .and_then(|x| u8::from_str_radix(x, 16).ok())
+        });
 
-        let mut color = color.collect::<Vec<u8>>();
+        let mut color = color.collect::<Option<Vec<u8>>>().unwrap_or_default();
         if color.len() == 3 {
             color.push(255);
         }
